@@ -19,7 +19,7 @@ CHECKS = {
     },
     "C04": {
         "technique": "TLA+ spec (Design.tla: cell-level meaning of labels, label order, slices) model checked with TLC on a small scope; every TLC-generated (frame, formula) case replayed into design_matrices and compared cell by cell; recorded builds on random frames judged by TLC (Design_Trace)",
-        "text": "TLC enumerates every frame of the small scope (3-4 rows, factors with up to 3 levels) x 14 formula shapes, checks the Abs design function's theorems and exports the complete expected design (labels, cells, slices); the real code is run on each and must agree exactly. Random worlds (3-30 rows; factors stored as object / pandas string / Categorical / ordered Categorical / integer-via-C columns, integers stored as int64 / float64 / nullable Int64, unequal level counts, numeric calls, interactions up to arity 3 in random factor order, group terms) are built by the real code and every recorded design is judged by TLC: each cell equals the meaning of its label, labels and columns agree in number and order, levels sorted or as declared, cartesian label order with the first factor slowest. The same designs are then evaluated on new data (all training rows, reordered and partly repeated) and the resulting matrices are judged against the same labels.",
+        "text": "TLC enumerates every frame of the small scope (3-4 rows, factors with up to 3 levels) x 18 formula shapes (incl. nesting f/g, group terms of two factors, subset-notation responses), checks the Abs design function's theorems and exports the complete expected design (labels, cells, slices); the real code is run on each and must agree exactly. Random worlds (3-30 rows; factors stored as object / pandas string / Categorical / ordered Categorical / integer-via-C columns, integers stored as int64 / float64 / nullable Int64, unequal level counts, numeric calls, interactions up to arity 3 in random factor order, group terms) are built by the real code and every recorded design is judged by TLC: each cell equals the meaning of its label, labels and columns agree in number and order, levels sorted or as declared, cartesian label order with the first factor slowest. The same designs are then evaluated on new data (all training rows, reordered and partly repeated) and the resulting matrices are judged against the same labels.",
         "ref": "DESIGN.md §3.7, §4 C04",
         "note": "Trusted: TLC, fv/design.py and fv/gen.py (materialisation of abstract frames, parsing of label strings with the generator's name tables). Integer-valued data only (exact products). Builds that raise are counted, not judged here.",
     },
@@ -31,13 +31,13 @@ CHECKS = {
     },
     "C15": {
         "technique": "TLA+ spec (Design.tla response meaning; Design_Trace judge with build / rows / refuse events) checked with TLC; small-scope cases replayed; recorded response forms judged by TLC",
-        "text": "Small-scope S->C incl. a categorical response; recorded builds with numeric / str / Categorical / ordered / call responses judged cell by cell; subset notation y[ident], y['quoted'], y[\"quoted\"] must be 1 exactly where y equals the level, also for a level that never occurs, is a declared but unobserved category, or occurs only on dropped rows (an all-zero column); prop/p/proportion with column or constant trials must give successes and trials and refuse invalid data; predictors must be identical under a different response (rows relation judged by TLC); multi-term responses must be refused; no response => no response matrix.",
+        "text": "Small-scope S->C incl. a categorical response; recorded builds with numeric / str / Categorical / ordered / call responses judged cell by cell; subset notation y[ident], y['quoted'], y[\"quoted\"] must be 1 exactly where y equals the level, also for a level that never occurs, is a declared but unobserved category, or occurs only on dropped rows (an all-zero column); prop/p/proportion with column or constant trials must give successes and trials and refuse invalid data; predictors must be identical under a different response (rows relation judged by TLC); multi-term responses must be refused; no response => no response matrix; missing values in columns the formula does not use must not cost the response a row (response part judged alone).",
         "ref": "DESIGN.md §3.7, §4 C15",
         "note": "Trusted: as C04; the label of a subset-notation response is taken from the formula text.",
     },
     "C17": {
         "technique": "TLA+ container invariants (Design_MC ShapeOK; Design_Trace build and object clauses) checked by TLC on every matrix object of small-scope replays, random builds and evaluate_new_data chains",
-        "text": "Every matrix object produced by the small-scope replays, by random builds and by chains of evaluate_new_data (subsets, unseen groups in silent mode) is recorded; TLC checks that slices are contiguous from 0 in term order and cover all columns and that rows = retained observations; the harness-computed view agreement ([name] = slice, unknown name refused, as_dataframe / asarray / unpacking agree, unique column names, str()/repr() succeed and show the shape) is part of each event.",
+        "text": "Every matrix object produced by the small-scope replays, by random builds and by chains of evaluate_new_data (subsets, unseen groups in silent mode) is recorded, and the containers of a design are recorded again after another design was built from the same formula text on other data; TLC checks that slices are contiguous from 0 in term order and cover all columns and that rows = retained observations; the harness-computed view agreement ([name] = slice, unknown name refused, as_dataframe / asarray / unpacking agree, unique column names, str()/repr() succeed and show the shape) is part of each event.",
         "ref": "DESIGN.md §4 C17",
         "note": "Trusted: fv/drivers/c17_objects.py:object_event and fv/gen.py:matrix_event compute the view-agreement booleans.",
     },
@@ -61,13 +61,13 @@ CHECKS = {
     },
     "C10": {
         "technique": "TLA+ spec (Design.tla: levels frozen at training, zero rule, trailing group block, factor list; Lifecycle config discipline) model checked with TLC (UnseenTheorem) and replayed; recorded evaluations with unseen levels under mode sequences judged by TLC (Design_Trace unseen clause, Lifecycle_Trace config clause)",
-        "text": "TLC enumerates rows of every small-scope training frame with cells of the predictor f, the grouping variable g or both replaced by a never-seen level under the three modes, proves the zero rule / block-width rule on the Abs evaluation and exports the expected matrices, slices and factor lists; cases are replayed through evaluate_new_data with the configured mode (warnings matched by formulae's message). Random worlds x formulas with unseen levels placed in predictors, effect and grouping variables (str, ordered categorical, C(k), interaction factors), up to 3 evaluations per design with mode changes in between, are judged event by event by TLC. 28 assignments of documented and undocumented keys/values are judged against the config discipline.",
+        "text": "TLC enumerates rows of every small-scope training frame with cells of the predictor f, the grouping variable g or both replaced by a never-seen level under the three modes, proves the zero rule / block-width rule on the Abs evaluation and exports the expected matrices, slices and factor lists; cases are replayed through evaluate_new_data with the configured mode (warnings matched by formulae's message). Random worlds x formulas with unseen levels placed in predictors, effect and grouping variables (str, ordered categorical, C(k), interaction factors), up to 3 evaluations per design with mode changes in between (a new frame or the very same frame object again), are judged event by event by TLC. 28 assignments of documented and undocumented keys/values are judged against the config discipline.",
         "ref": "DESIGN.md §3.7, §3.8, §4 C10",
         "note": "Trusted: as C04. In 'error' mode an unseen level anywhere in the evaluated matrix must raise ValueError. Integer-valued data.",
     },
     "C03": {
         "technique": "TLA+ spec (Contrasts.tla: atom theory = Abs; transcription of pick_contrast / _get_encoding_groups / add_extra_terms / Model.eval = Impl) model checked with TLC over every ordered family of terms; every family replayed into design_matrices on complete-factorial data and decided by exact integer rank computations; recorded pick_contrasts calls judged by TLC against the spec action",
-        "text": "TLC enumerates every ordered family of <= 3 terms (<= 3 factors each) over {f,g,h,x} with and without intercept (4760), families with swapped factor orders over {f,g,h,x,z}, every family of <= 2 terms of arity <= 4 over four categorical factors (thorough: <= 4 terms), 38 spellings with operators incl. terms reached twice with their factors in another order, and proves that the modelled algorithm covers every required atom exactly once (the same model with the repairs switched off yields the pinned tree's counterexamples). Each exported family is built by the real code on replicated complete-factorial data with random level counts 2..4, as plain variables and as C/T/S/scale/center/bs/poly atoms with random factor order, and checked with exact ranks: rank(X) = ncol(X) = sum over atoms of prod(levels-1)*widths and rank([X B]) = rank(B) for the full-indicator basis B built from the family. Recorded pick_contrasts calls of random builds must equal the spec action PickGroup (drift only).",
+        "text": "TLC enumerates every ordered family of <= 3 terms (<= 3 factors each) over {f,g,h,x} with and without intercept (4760), families with swapped factor orders over {f,g,h,x,z}, every family of <= 2 terms of arity <= 4 over four categorical factors (thorough: <= 4 terms), 38 spellings with operators incl. terms reached twice with their factors in another order, and proves that the modelled algorithm covers every required atom exactly once (the same model with the repairs switched off yields the pinned tree's counterexamples). Each exported family is built by the real code on replicated complete-factorial data with random level counts 2..4, as plain variables and as C/T/S/scale/center/bs/poly atoms with random factor order, on integer and on quarter-valued numeric columns, and checked with exact ranks: rank(X) = ncol(X) = sum over atoms of prod(levels-1)*widths and rank([X B]) = rank(B) for the full-indicator basis B built from the family. Recorded pick_contrasts calls of random builds must equal the spec action PickGroup (drift only).",
         "ref": "DESIGN.md §3.5, §4 C03",
         "note": "Trusted: TLC, fv/rank.py (mod-p elimination with two primes, exact Bareiss on disagreement), numpy SVD with a gap test for float atoms (unclear gaps are counted, not judged), the data generator (replication >= 2 + 3 x numeric width, distinct numeric values). Families are sets of terms.",
     },
@@ -79,27 +79,27 @@ CHECKS = {
     },
     "C13": {
         "technique": "TLA+ spec (Coding.tla: validity predicates with exact fraction-free ranks = Abs; index-formula transcription of categorical.py = Impl) model checked with TLC for every size and reference; spec matrices compared with the real Treatment/Sum objects; real matrices judged by TLC; option handling replayed through design_matrices against the spec's matrices; interchangeability through Contrasts.tla + exact ranks",
-        "text": "TLC proves for every n <= 8 (quick) / 12 (thorough) and every reference / omitted level that the transcribed constructions satisfy the validity predicates (indicator columns with zero reference row; zero column sums with the omitted level coded -1; k = n-1; rank n together with the constant; full codings of rank n; labels name the levels) and the real Treatment/Sum outputs must equal the spec's matrices; the real matrices for n <= 12 are judged by TLC directly. Every permutation of <= 4 (5) levels passed as levels= x every reference x string and integer level values (incl. 0, not in first place) x 10 spellings of C/T/S (incl. defaults and the T = C(Treatment), S = C(Sum) synonyms) x with/without intercept is built by the real code and compared with the spec's rows and level labels. Swapping codings never changes the column space: C03's exact-rank replay with variable / C / T(ref) / S / C(Sum) atoms.",
+        "text": "TLC proves for every n <= 8 (quick) / 12 (thorough) and every reference / omitted level that the transcribed constructions satisfy the validity predicates (indicator columns with zero reference row; zero column sums with the omitted level coded -1; k = n-1; rank n together with the constant; full codings of rank n; labels name the levels) and the real Treatment/Sum outputs must equal the spec's matrices; the real matrices for n <= 12 are judged by TLC directly. Every permutation of <= 4 (5) levels passed as levels= x every reference x string and integer level values (incl. 0, not in first place) x 10 spellings of C/T/S (incl. defaults and the T = C(Treatment), S = C(Sum) synonyms) x with/without intercept is built by the real code and compared with the spec's rows and level labels. Swapping codings never changes the column space: C03's exact-rank replay with variable / C / T(ref) / S / C(Sum) atoms, on integer and on quarter-valued numeric columns.",
         "ref": "DESIGN.md §3.6, §4 C13",
         "note": "Trusted: TLC integer arithmetic (32-bit; determinants of 0/±1 matrices up to 13x13 stay far below 2^31), fv/rank.py.",
     },
     "C11": {
         "technique": "TLA+ spec (Scopes.tla: ordered scope chain, one action per probe) model checked with TLC over the complete configuration space; every terminal state replayed into design_matrices through synthetic caller modules with sentinels",
-        "text": "Complete enumeration: all 3072 configurations (which of data / built-ins / caller locals / caller globals / extra_namespace define the name; decoy definitions in the locals and globals of frames that env does not select and in Python's own built-in namespace (a name spelled like max / abs); role argument or callee; plain, back-quoted or dotted name; env 0..3). TLC checks FirstMatchWins, DecoysIrrelevant and NoShadowing on the probe-by-probe machine and exports the winner of each configuration; the harness builds four nested callers in four synthetic modules, plants distinguishable sentinels and observes which object reaches a recording function (argument role) or gets called (callee role, dotted via attribute access); an undefined name must raise. The built-in scope is probed with a name of each registry (transforms and encodings: 4608 replays), and a logging extra_namespace records whether the last scope was asked: Scopes_Trace checks that it is probed iff no earlier scope defines the name (path conformance).",
+        "text": "Complete enumeration: all 4608 configurations (which of data / built-ins / caller locals / caller globals / extra_namespace define the name; decoy definitions in the locals and globals of frames that env does not select and in Python's own built-in namespace (a name spelled like max / abs); role argument or callee; an argument written plain, back-quoted or as the value of a keyword argument, a callee plain or dotted with three or four components (a wrong turn a.b.f planted beside a.b.c.f); env 0..3). TLC checks FirstMatchWins, DecoysIrrelevant and NoShadowing on the probe-by-probe machine and exports the winner of each configuration; the harness builds four nested callers in four synthetic modules, plants distinguishable sentinels and observes which object reaches a recording function (argument role) or gets called (callee role, dotted via attribute access); an undefined name must raise. The built-in scope is probed with a name of each registry (transforms and encodings: 6912 replays), and a logging extra_namespace records whether the last scope was asked: Scopes_Trace checks that it is probed iff no earlier scope defines the name (path conformance).",
         "ref": "DESIGN.md §3.9, §4 C11",
         "note": "Trusted: the sentinel harness fv/drivers/c11.py (a back-quoted name that is not an identifier cannot be a Python local: that scope is treated as not defining it).",
     },
     "C12": {
         "technique": "TLA+ spec (PyExpr.tla: Python's expression grammar = Abs; Grammar.tla's transcription of the formula parser = Impl) model checked with TLC (difference theorem) over every short argument token string; each Python expression replayed through formulae and through CPython's eval with recording operands; recorded evaluations of random expressions judged by TLC (PyExpr_Trace); spec tree cross-checked with the ast module",
-        "text": "TLC enumerates every token string up to 5 tokens over {name, number, + - * / ** ( ) <} and up to 7 tokens over {name, number, + * ** ( )} (1.07M strings), proves that every expression of the Python fragment is accepted by the formula parser and that the two trees differ exactly on the PowIssue class, and exports the Python expressions; each is evaluated with recording operands inside a call through formulae and with eval(), and the received operator trees / constant values must be equal; the term name must be whitespace-invariant and spell the same Python AST as the source. Random expressions of depth <= 6 with random whitespace are evaluated by the real code and the received tree is judged by TLC against Python's tree. Literals (int/float/str/True/False/None), keyword arguments, nested calls, quote style and {e} = I(e) are checked on fixed cases.",
+        "text": "TLC enumerates every token string up to 5 tokens over {name, number, + - * / ** ( ) <} and up to 7 tokens over {name, number, + * ** ( )} (1.07M strings), proves that every expression of the Python fragment is accepted by the formula parser and that the two trees differ exactly on the PowIssue class, and exports the Python expressions; each is evaluated with recording operands inside a call through formulae and with eval(), and the received operator trees / constant values must be equal; the term name must be whitespace-invariant and spell the same Python AST as the source. Random expressions of depth <= 6 with random whitespace are evaluated by the real code and the received tree is judged by TLC against Python's tree. Literals (int/float/str/True/False/None), keyword arguments, nested calls, quote style, {e} = I(e) and names bound to None / 0 / False / '' / [] (passed as they are, also when a local shadows an outer binding) are checked on fixed cases.",
         "ref": "DESIGN.md §3.3, §4 C12",
         "note": "Trusted: the recording operand class (comparisons with a constant on the left are reflected by Python and excluded), CPython's eval/ast as ground truth. Chained comparisons, keyword repetition and unsupported operators are outside the domain. Open finding KF_C12_pow.",
     },
     "C14": {
         "technique": "TLA+ spec in exact rational arithmetic (Transforms.tla: contracts = Abs; percentile knots, Cox-de Boor recursion, three-term recurrence and the branch table of BSpline._initialize = Impl) model checked with TLC on all small integer inputs; exact values replayed into formulae.transforms at 1e-9; TLC as exact oracle for harness-chosen longer inputs",
-        "text": "TLC proves in exact rationals, for every integer vector of length 3..4 over 0..3 and degree 1..3, that center has mean zero, scale has unit population variance, the poly recurrence gives mutually orthogonal columns orthogonal to the constant; for every non-constant vector of length 4 over 0..2 (quick) / 4..5 over 0..4 (thorough) x 0..2 inner knots x degree 0..3 x intercept x explicit boundary knots 0 or 1 beyond the data on either side that the B-spline basis on percentile knots has the documented number of columns, is non-negative and sums to one (also on later data with remembered knots); and that the branch table of BSpline._initialize equals the documented refusal rules on all 5600 parameter classes. Every case is replayed into the real Center/Scale/Polynomial/BSpline objects (training call, then later data on the same instance; raw=True = powers; explicit knots = df) and compared with the exact values. center / scale / standardize / poly are also reached by name through a formula (design built on x, then evaluated on the later data) and must give the values of the judged objects. Longer vectors with ties are decided with the spec as oracle.",
+        "text": "TLC proves in exact rationals, for every integer vector of length 3..4 over 0..3 and degree 1..3, that center has mean zero, scale has unit population variance, the poly recurrence gives mutually orthogonal columns orthogonal to the constant; for every non-constant vector of length 4 over 0..2 (quick) / 4..5 over 0..4 (thorough) x 0..2 inner knots x degree 0..3 x intercept x explicit boundary knots 0 or 1 beyond the data on either side that the B-spline basis on percentile knots has the documented number of columns, is non-negative and sums to one (also on later data with remembered knots); and that the branch table of BSpline._initialize equals the documented refusal rules on all 5600 parameter classes. Every case is replayed into the real Center/Scale/Polynomial/BSpline objects (training call, then later data on the same instance; raw=True = powers; explicit knots = df) and compared with the exact values. center / scale / standardize / poly are also reached by name through a formula (design built on x, then evaluated on the later data) and must give the values of the judged objects; the exact values of center / scale are also demanded of the same data shifted by 1e6 and 1e7. Longer vectors with ties are decided with the spec as oracle.",
         "ref": "DESIGN.md §3.10, §4 C14, §8",
-        "note": "NOT decided by this technique: accuracy under large offsets / ill-conditioning, degree > 3, long vectors (TLC has 32-bit integers and no floats). Irrational outputs (scale, orthonormal poly) are compared through their squares and signs. Open finding KF_C14_knot_at_upper_bound.",
+        "note": "NOT decided by this technique: accuracy of bs / poly under large offsets / ill-conditioning, degree > 3, long vectors (TLC has 32-bit integers and no floats). Irrational outputs (scale, orthonormal poly) are compared through their squares and signs. Open finding KF_C14_knot_at_upper_bound.",
     },
     "C16": {
         "technique": "TLA+ spec (Helpers.tla: binary / offset / prop as train-then-predict state machines, pointwise meaning and frozen success level as invariants) model checked with TLC on every small case, each terminal state replayed through formulas into design_matrices / evaluate_new_data; recorded helper calls on random worlds judged by TLC (Design_Trace build / unseen / rows / refuse clauses over Design.tla's label meaning)",
